@@ -345,7 +345,8 @@ def judge_c12_step(rec):
         e = ref.maxdiff(got, np.asarray(want, complex))
     except Exception as ex:  # noqa: BLE001
         return out + [V("C12", "inconclusive", "in-situ-unreadable", str(ex), cell=cell, **sig)]
-    if e > 1e-8:
+    tol = 2e-6 if sp["type"] in ("Expresion", "Expression") else 1e-7 if sp["type"] in ("Displace", "Squeeze", "NonPolarizingBeamSplitter") else 1e-8
+    if e > tol:
         out.append(V("C12", "violated", "operation-operator", f"{sig.get('op')} at dims {dims}: maxabs={e:.3g}", cell=cell, **sig))
     else:
         out.append(V("C12", "held", cell=cell, **sig))
